@@ -87,11 +87,17 @@ func (c *Client) GetPeers(amount uint8) ([]PeerAddress, error) {
 	if err := c.SendMessage(msg); err != nil {
 		return nil, err
 	}
-	peers, ok := <-c.sharePeersChan
-	if !ok {
+	// Also watch for protocol shutdown: sharePeersChan is never closed, so a
+	// call pending when the connection ends would otherwise never return
+	select {
+	case peers, ok := <-c.sharePeersChan:
+		if !ok {
+			return nil, protocol.ErrProtocolShuttingDown
+		}
+		return peers, nil
+	case <-c.DoneChan():
 		return nil, protocol.ErrProtocolShuttingDown
 	}
-	return peers, nil
 }
 
 func (c *Client) messageHandler(msg protocol.Message) error {
